@@ -1,6 +1,7 @@
 import abc
 import asyncio
 import collections
+import contextvars
 import enum
 import errno
 import functools
@@ -550,6 +551,10 @@ class PathPermissions:
         return wrapper
 
 
+# restart offset of the transfer command the current handler task was started for
+transfer_offset = contextvars.ContextVar("transfer_offset", default=0)
+
+
 def worker(f):
     """
     Decorator. Abortable worker. If wrapped task will be cancelled by
@@ -946,7 +951,6 @@ class Server:
             response=lambda *args: response_queue.put_nowait(args),
             acquired=False,
             restart_offset=0,
-            transfer_offset=0,
             passive_lock=asyncio.Lock(),
             _dispatcher=get_current_task(),
         )
@@ -1020,13 +1024,17 @@ class Server:
                             asyncio.create_task(self.parse_command(stream)),
                         )
                         if f is not None:
+                            # restart offset applies to the immediately following
+                            # command only, and only if that is a transfer; the
+                            # handler task keeps it in its own context, as the
+                            # next command may be dispatched before it has run
+                            if cmd in ("retr", "stor", "appe"):
+                                transfer_offset.set(connection.restart_offset)
+                            else:
+                                transfer_offset.set(0)
                             handler = asyncio.create_task(f(connection, rest))
                             handlers.add(handler)
                             pending.add(handler)
-                            # restart offset applies to the immediately following
-                            # command only, and only if that is a transfer
-                            if cmd in ("retr", "stor", "appe"):
-                                connection.transfer_offset = connection.restart_offset
                             connection.restart_offset = 0
                         else:
                             connection.restart_offset = 0
@@ -1407,7 +1415,7 @@ class Server:
             return True
 
         real_path, virtual_path = self.get_paths(connection, rest)
-        restart_offset = connection.transfer_offset
+        restart_offset = transfer_offset.get()
         real_parent, _ = self.get_paths(connection, virtual_path.parent)
         if await connection.path_io.is_dir(real_parent):
             coro = stor_worker(self, connection, rest)
@@ -1449,7 +1457,7 @@ class Server:
             return True
 
         real_path, virtual_path = self.get_paths(connection, rest)
-        restart_offset = connection.transfer_offset
+        restart_offset = transfer_offset.get()
         coro = retr_worker(self, connection, rest)
         task = asyncio.create_task(coro)
         connection.extra_workers.add(task)
